@@ -29,6 +29,10 @@ func ValueOf(query *Query, current Map, any any) (any, error) {
 				// }
 				return nil, err
 			}
+			// a column that names a CTE yields the CTE's rows, not its lazy thunk
+			if lazy, ok := rs.(CteEvaluation); ok {
+				return lazy()
+			}
 			return rs, nil
 		}
 	case NeutalString:
